@@ -55,8 +55,17 @@ func newC01Inst(young bool) *c01Inst {
 		return &c01Inst{w: fix.NewWorld(fix.Options{}), young: true}
 	}
 	w, rule := fix.ProofWorld(fix.Options{})
+	// an UNORDERED service of chain B (requests to it are not index-checked): together with the
+	// ordered B:s2 it is a child destination of the one-to-many transaction, whose final receipt
+	// posts a service event for every child in ONE transaction
+	res := w.Must(w.Block(w.InvokeTx(fix.KB, constant.ServiceMgrContractAddr, "RegisterService",
+		pb.String(fix.ChainB), pb.String(c01SvcU), pb.String("name-B-unordered"), pb.String("CallContract"),
+		pb.String("intro"), pb.Uint64(0), pb.String(""), pb.String("details"), pb.String("reason"))))
+	w.Approve(fix.ProposalID(res.Receipts[0]))
 	return &c01Inst{w: w, rule: rule.String()}
 }
+
+const c01SvcU = "0xB2dD6977169c5067d3729E3deB9a82c3e7502BF7"
 
 func (in *c01Inst) nextReq(from, to string) uint64 {
 	return viewInterchain(in.w.R, from).InterchainCounter[to] + 1
@@ -78,6 +87,7 @@ func (in *c01Inst) build(op string) ([]pb.Transaction, bool) {
 	b2 := fix.FullID(fix.ChainB, fix.Svc2)
 	ww := fix.FullID(fix.ChainW, fix.SvcW)
 	ff := fix.FullID(fix.ChainF, fix.SvcF)
+	bu := fix.FullID(fix.ChainB, c01SvcU)
 	if in.young {
 		a0 := fix.AdminKeys[0]
 		switch op {
@@ -191,10 +201,11 @@ func (in *c01Inst) build(op string) ([]pb.Transaction, bool) {
 		if in.group != nil {
 			return nil, false
 		}
-		g := &pb.StringUint64Map{Keys: []string{b2, ww}, Vals: []uint64{in.nextReq(a1, b2), in.nextReq(a1, ww)}}
+		g := &pb.StringUint64Map{Keys: []string{b2, ww, bu}, Vals: []uint64{in.nextReq(a1, b2), in.nextReq(a1, ww), in.nextReq(a1, bu)}}
 		return []pb.Transaction{
 			fix.IBTPTx(fix.KA, w.N.Next(fix.KA), &pb.IBTP{From: a1, To: b2, Index: g.Vals[0], TimeoutHeight: 2, Group: g}, fix.GoodProof),
 			fix.IBTPTx(fix.KA, w.N.Next(fix.KA), &pb.IBTP{From: a1, To: ww, Index: g.Vals[1], TimeoutHeight: 2, Group: g}, fix.GoodProof),
+			fix.IBTPTx(fix.KA, w.N.Next(fix.KA), &pb.IBTP{From: a1, To: bu, Index: g.Vals[2], TimeoutHeight: 2, Group: g}, fix.GoodProof),
 		}, true
 	case "o2mr":
 		if in.group == nil {
@@ -203,6 +214,7 @@ func (in *c01Inst) build(op string) ([]pb.Transaction, bool) {
 		g := in.group
 		return []pb.Transaction{
 			fix.IBTPTx(fix.KB, w.N.Next(fix.KB), &pb.IBTP{From: a1, To: b2, Index: g.Vals[0], Type: pb.IBTP_RECEIPT_SUCCESS, Group: g}, fix.GoodProof),
+			fix.IBTPTx(fix.KB, w.N.Next(fix.KB), &pb.IBTP{From: a1, To: bu, Index: g.Vals[2], Type: pb.IBTP_RECEIPT_SUCCESS, Group: g}, fix.GoodProof),
 			fix.IBTPTx(fix.KW, w.N.Next(fix.KW), &pb.IBTP{From: a1, To: ww, Index: g.Vals[1], Type: pb.IBTP_RECEIPT_FAILURE, Group: g}, []byte("True")),
 		}, true
 	case "wreq":
@@ -237,6 +249,9 @@ func (in *c01Inst) build(op string) ([]pb.Transaction, bool) {
 			bad,
 			w.InvokeTx(fix.KUser, constant.StoreContractAddr, "NoSuchMethod", pb.String("x")),
 			w.InvokeTx(fix.KUser, constant.StoreContractAddr, "Set", pb.String("k"), pb.String("v")),
+			// requests that leave a gap in the index sequence: refused by the ordered B:s2, taken by the unordered B:sU
+			fix.IBTPTx(fix.KA, w.N.Next(fix.KA), &pb.IBTP{From: a1, To: b2, Index: in.nextReq(a1, b2) + 2}, fix.GoodProof),
+			fix.IBTPTx(fix.KA, w.N.Next(fix.KA), &pb.IBTP{From: a1, To: bu, Index: in.nextReq(a1, bu) + 1}, fix.GoodProof),
 		}
 		if in.proposalOpen(in.openProp) {
 			txs = append(txs, w.VoteTx(1, in.openProp, "reject"))
